@@ -20,7 +20,7 @@ from ..monitors import slicemon
 from ..runner import jhash
 
 LEVEL = "exploration"
-RULE = ("cases = (parent kind in {Signal, Slice, Concat2, Concat3, PortRef, PortRef-unconnected, BundleRef}) x parent width "
+RULE = ("cases = (parent kind in {Signal, Slice, Concat2, Concat3, nested Concats, PortRef, PortRef-unconnected, BundleRef}) x parent width "
         "1..W x index: every int in [-2W, 2W] and every slice with start, stop in [-2W, 2W] + None, step in {None, +-1..+-W}; "
         "exhaustive for the Signal parent at W=3 (quick) / all parents at W=3 and Signal at W=5 (thorough), seeded samples "
         "elsewhere and for nesting depth 2..3 and wide buses; distinct = (parent kind, width, index chain); non-trivial = "
@@ -59,6 +59,12 @@ def parent_expr(kind: str, w: int):
             return parent_expr("Concat2", w)
         sigs += [["ca", 1], ["cb", w - 2], ["cc", 2]]
         e = ["cat", ["sig", "ca"], ["sig", "cb"], ["slice", ["sig", "cc"], 0]]
+    elif kind in ("ConcatNestedL", "ConcatNestedR"):
+        if w < 3:
+            return parent_expr("Concat2", w)
+        sigs += [["ca", 1], ["cb", w - 2], ["cc", 1]]
+        e = ["cat", ["cat", ["sig", "ca"], ["sig", "cb"]], ["sig", "cc"]] if kind.endswith("L") else \
+            ["cat", ["sig", "ca"], ["cat", ["sig", "cb"], ["sig", "cc"]]]
     elif kind == "PortRef":
         sigs.append(["par", w])
         insts.append({"name": "u", "kind": "single", "of": ["leaf", refsem.wleaf(w)], "tag": 7, "conns": {"p": ["sig", "par"]}})
@@ -190,7 +196,7 @@ def all_indices(W: int, w: int):
         yield [a, b, s]
 
 
-KINDS = ["Signal", "Slice", "Concat2", "Concat3", "PortRef", "PortRef-unconnected", "BundleRef"]
+KINDS = ["Signal", "Slice", "Concat2", "Concat3", "ConcatNestedL", "ConcatNestedR", "PortRef", "PortRef-unconnected", "BundleRef"]
 
 
 def rand_index(rng, W, n):
